@@ -439,6 +439,61 @@ func checkC19(p *core.Program, r *core.Report) {
 			"Contact.Format returns URN-derived text ("+why+") on a path not dominated by the non-redacting edge of the policy test: a nameless contact is shown by URN under redaction")
 	}
 	r.Require("contact_format_urn_returns", nF, 1)
+	// ... and under redaction a contact without a name is shown by its id: every return of Contact.Format that is not
+	// the name is decided by the policy test, and the redacting edge returns text made from the id
+	{
+		fieldsOf := func(v ssa.Value) map[string]bool {
+			out := map[string]bool{}
+			for w := range core.BackSlice(v, func(*ssa.Call) bool { return true }) {
+				if fa, ok := w.(*ssa.FieldAddr); ok && len(format.Params) > 0 && fa.X == ssa.Value(format.Params[0]) {
+					out[core.FieldAddrVar(fa).Name()] = true
+				}
+			}
+			return out
+		}
+		idOnRedacting := false
+		k := 0
+		// what is returned, per way of getting there: a result variable merged at a single exit is taken apart into the
+		// values that flow into it and the edge each arrives by
+		type leaf struct {
+			v        ssa.Value
+			pr, succ *ssa.BasicBlock
+			pos      token.Pos
+		}
+		var leaves []leaf
+		var expand func(v ssa.Value, pr, succ *ssa.BasicBlock, pos token.Pos, seen map[ssa.Value]bool)
+		expand = func(v ssa.Value, pr, succ *ssa.BasicBlock, pos token.Pos, seen map[ssa.Value]bool) {
+			if ph, ok := v.(*ssa.Phi); ok && !seen[v] {
+				seen[v] = true
+				for i, e := range ph.Edges {
+					expand(e, ph.Block().Preds[i], ph.Block(), pos, seen)
+				}
+				return
+			}
+			leaves = append(leaves, leaf{v, pr, succ, pos})
+		}
+		for _, ret := range core.Returns(format) {
+			expand(ret.Results[0], nil, ret.Block(), ret.Pos(), map[ssa.Value]bool{})
+		}
+		for _, lf := range leaves {
+			fs := fieldsOf(lf.v)
+			if fs["name"] && len(fs) == 1 {
+				continue
+			}
+			k++
+			pe := 0
+			if lf.pr == nil {
+				pe = policyEdge(lf.succ)
+			} else {
+				pe = policyEdgeInto(lf.pr, lf.succ)
+			}
+			if pe == 1 && fs["id"] {
+				idOnRedacting = true
+			}
+			r.Check(pe != 0, "R1", fmt.Sprintf("Contact.Format/nameless-return#%d/decided-by-policy", k), p.Pos(lf.pos), "returned on one edge of the redaction policy test", "Contact.Format returns something other than the name before asking the redaction policy: under redaction a contact without a name is then not shown by its id")
+		}
+		r.Check(idOnRedacting, "R1", "Contact.Format/id-when-redacted", p.Pos(format.Pos()), "the redacting edge returns text made from the contact's id", "no return on the redacting edge of Contact.Format is made from the contact's id")
+	}
 	// any other function in package flows (non-test) that returns a string derived from a URN and takes an Environment is
 	// suspicious; enumerate them
 	for _, fn := range p.ModuleFunctions() {
